@@ -244,7 +244,7 @@ Definition trace_ok (dv : rid * N) (e : nenv) : Prop := Forall (ncall_ok dv) (n_
 
 Lemma radio_call_ok dv e w e1 ok : ncall_radio e w = (e1, ok) -> ncall_ok dv w -> trace_ok dv e -> trace_ok dv e1.
 Proof.
-  unfold ncall_radio, trace_ok. destruct (match n_fault e with Some k => k =? n_calls e | None => false end);
+  unfold ncall_radio, trace_ok. destruct (nfaulty e);
     intros H; injection H as <- _; cbn [n_trace]; intros W T; constructor; try assumption.
   destruct w; try exact I; exact W.
 Qed.
